@@ -150,7 +150,7 @@ def run_history(world, spec, hist, store_kind, oracles, sigtab=None, opts=None, 
                 probs += _check_paths(prog, spec, hist, si, real, ref, fresh=False)
         if "C04" in oracles and store_kind != "noop" and obs and obs[-1]["real"][0] == "ok" and not diverged:
             prog.restart()
-            probs += _check_paths(prog, spec, hist, len(hist) - 1, None, None, fresh=True)
+            probs += _check_paths(prog, spec, hist, len(hist) - 1, real, ref, fresh=True)
     finally:
         prog.cleanup()
     return probs, len(hist), obs
@@ -195,7 +195,9 @@ def _check_paths(prog, spec, hist, si, real, ref, fresh):
             got = ("exc", type(e).__name__, str(e)[:100])
         if got != ("ok", want):
             sym = "wrong_value" if got[0] == "ok" else f"load_raises:{got[1]}"
-            probs.append(("C04", f"C04|{sym}|{'fresh_process' if fresh else 'same_process'}|{spec['key']}",
+            # the evaluation did not reach the keep of this path (branch not taken) and dds committed the path all the same
+            unreached = bool(spec.get("conditional")) and ref is not None and path not in ref.sigs and path in getattr(real, "sigs", {})
+            probs.append(("C04", f"C04|{sym}|{'fresh_process' if fresh else 'same_process'}|{spec['key']}" + ("|unreached_keep_committed" if unreached else ""),
                           _what(spec, hist, si, f"path {path} loads {got!r} ({'fresh process' if fresh else 'same process'}), latest kept value is {want!r}")))
         elif prog.store_kind.startswith("local") and isinstance(want, (str, bytes)):
             fp = os.path.join(prog.store_dir, "d", *[s for s in path.split("/") if s])
